@@ -37,6 +37,24 @@ Proof.
 Qed.
 Print Assumptions C20_markup.
 
+(* The same for Formatter::format with either indentation setting (indent = true
+   is what the `info` / help output of the HTML front end uses): the output is
+   the rendering of the markup with the indentation parts inserted, so it too
+   consists of the renderer's own spans around escaped text only. *)
+Theorem C20_format :
+  forall (m : list (ftype * bytes)) (indent : bool),
+    format m indent = render (expand m indent)
+    /\ read_html (format m indent) = Some (items_of (expand m indent))
+    /\ well_nested false (items_of (expand m indent)) = true
+    /\ text_of (items_of (expand m indent)) = flat_map snd (expand m indent)
+    /\ flat_map snd (expand m false) = flat_map snd m.
+Proof.
+  intros m indent. split; [apply format_expand|]. rewrite format_expand.
+  split; [apply read_render|]. split; [apply well_nested_items|].
+  split; [apply text_of_items|apply text_of_expand_false].
+Qed.
+Print Assumptions C20_format.
+
 (* HtmlWriter (the sink codespan-reporting writes diagnostics into): for EVERY
    sequence of set_color / reset / write calls with arbitrary bytes, the buffer
    is accepted by the reader, contains only the writer's own spans, properly
